@@ -254,6 +254,7 @@ def step (st : St) (toks : List String) : St × String :=
       | some (.plain t) => (st, desc t)
       | _ => (st, "bad-op")
     | none => (st, "bad-op")
+  | ["khash"] => (st, "16 64")     -- occaKernelHash / occaKernelFullHash: C strings of 16 and 64 hex digits (C27)
   | ["rt", v, totag] =>
     match parseVal v with
     | some (.slot _) => (st, "bad-op")
